@@ -550,7 +550,13 @@ Definition add_hash (o : gobj) : res gobj :=
     Ok (set_name (store_prev o) (g_name o ++ "-" ++ h))
   else Ok o.
 
+(* HashTransformer (since 9a490e0): every renamed object must be the only one with its new id *)
+Definition hash_ids_unique (out : resmap) : bool :=
+  forallb (fun o => negb (g_hash o) ||
+                    match indices (matches_cur (g_secret o) (cur_id o)) out with [_] => true | _ => false end) out.
+
 (* KustTarget.makeCustomizedResMap restricted to generated objects *)
 Definition build (l : layer) : res resmap :=
   do rm <- accumulate l;
-  mapM add_hash rm.
+  do out <- mapM add_hash rm;
+  if hash_ids_unique out then Ok out else Err.
